@@ -56,6 +56,8 @@ package transactional
 //gvc:  ensures cas: err == nil && old != nil ==> old(tx_view(r, strid(old.n))) != 0 && field(old(tx_view(r, strid(old.n))), "plumbing.Reference.h") == old.h
 //gvc:  ensures samekind: err == nil && old != nil ==> field(old(tx_view(r, strid(old.n))), "plumbing.Reference.t") == old.t
 //gvc:  ensures sametarget: err == nil && old != nil && old.t == 2 ==> bytes_eq(field(old(tx_view(r, strid(old.n))), "plumbing.Reference.target"), old.target)
+//gvc:  ensures set: err == nil ==> tx_view(r, strid(ref.n)) == ref
+//gvc:  ensures others: forall(k, -0x7fffffffffffffff, 0x7fffffffffffffff, k != strid(ref.n) ==> tx_view(r, k) == old(tx_view(r, k)))
 //gvc:  ensures base: r.ReferenceStorer.#refs == old(r.ReferenceStorer.#refs)
 //gvc:end
 
